@@ -6,6 +6,7 @@ from .. import poly
 from ..interp import Interp, Hooks, Tup, Const, Cmp, State, Outcome, TRUE, FALSE
 from ..order import weak_orderings, OrderCase, describe
 from ..model import AnalysisError
+from .. import purity
 
 V = Sym.var
 X1, Y1, X2, Y2 = V('x_1'), V('y_1'), V('x_2'), V('y_2')
@@ -14,21 +15,27 @@ ITER = V('iter')
 
 
 class ClipCase(OrderCase):
-    """Order case for both axes plus an abstract value of the iteration counter."""
+    """Order case for both axes plus a value of the iteration counter: a concrete number of
+    completed clipping steps, or 'big' = above every literal."""
 
-    def __init__(self, groups, big):
+    def __init__(self, groups, big, iter_value=None):
         super().__init__(groups)
         self.big = big
+        self.iter_value = iter_value
 
     def decide(self, cond, st):
         if isinstance(cond, Cmp) and isinstance(cond.a, Sym) and isinstance(cond.b, Sym):
             e = cond.a - cond.b
             for s in (1, -1):
                 d = e * s - ITER
-                if d.is_const():   # s*e = iter + c : iter is -inf (small) or +inf (big)
-                    v = (1 if self.big else -1) * s
-                    return {'<': v < 0, '<=': v < 0, '>': v > 0, '>=': v > 0, '==': False,
-                            '!=': True}[cond.op]
+                if d.is_const():   # s*e = iter + c
+                    if self.big:
+                        v = s
+                        return {'<': v < 0, '<=': v < 0, '>': v > 0, '>=': v > 0, '==': False,
+                                '!=': True}[cond.op]
+                    v = (self.iter_value + d.const_value()) * s
+                    return {'<': v < 0, '<=': v <= 0, '>': v > 0, '>=': v >= 0, '==': v == 0,
+                            '!=': v != 0}[cond.op]
         return super().decide(cond, st)
 
 
@@ -109,6 +116,7 @@ def run(ck, prog, tier):
     ck.assumptions += ['finite coordinates, rectangle min<=max', 'exact (rational) arithmetic; '
                        'floating-point tolerance and what the failsafe returns are not decided']
     ck.trusted += ['python ast module', 'vf.poly', 'vf.interp', 'vf.order']
+    purity.check(ck, prog, ['plot_utils.clip_segment', 'plot_utils.clip_code'], 'C08-R-pure')
     bits = check_clip_code(ck, prog)
     fn = prog.func('plot_utils.clip_segment')
     if fn.params != ['segment', 'bounds']:
@@ -141,6 +149,7 @@ def run(ck, prog, tier):
     else:
         raise AnalysisError('clip_segment loop is not `while True`')
     st0 = st0.copy()
+    iter_init = st0.env[counters[0]].const_value() if counters else 0
     for c in counters:
         st0.env[c] = ITER if len(counters) == 1 else st0.env[c]
     if len(counters) != 1:
@@ -156,6 +165,7 @@ def run(ck, prog, tier):
         pass
 
     counts = {'steps': 0}
+    step_cases = []
 
     def judge(rx, ry, desc, mk_case, wit=''):
             o1 = {('x', s) for s in outside(rx, 'p1')} | {('y', s) for s in outside(ry, 'p1')}
@@ -201,6 +211,7 @@ def run(ck, prog, tier):
                 if o.kind not in ('fall', 'continue'):
                     raise AnalysisError('unexpected loop outcome %s' % o.kind)
                 counts['steps'] += 1
+                step_cases.append((rx, ry, udesc))
                 env = o.state.env
                 new = {r: env.get(n) for r, n in roles.items()}
                 ch1 = not (new['x1'] == X1 and new['y1'] == Y1)
@@ -274,7 +285,7 @@ def run(ck, prog, tier):
             for ry in axes:
                 n_cases += 1
                 judge(rx, ry, 'x: %s | y: %s' % (describe(rx), describe(ry)),
-                      lambda big, rx=rx, ry=ry: ClipCase([(tx, rx), (ty, ry)], big))
+                      lambda big, rx=rx, ry=ry: ClipCase([(tx, rx), (ty, ry)], big, iter_init))
     except Und as und:
         # comparisons across axes / outside the order type: exhibit a realisable counterexample
         from fractions import Fraction as Fr
@@ -300,7 +311,7 @@ def run(ck, prog, tier):
 
                             def mk(big, w=w):
                                 ww = dict(w)
-                                ww['iter'] = Fr(10 ** 6 if big else -10 ** 6)
+                                ww['iter'] = Fr(10 ** 6) if big else Fr(iter_init)
                                 return WCase(ww)
                             try:
                                 judge(rx, ry, 'x: %s | y: %s' % (describe(rx), describe(ry)), mk, wd)
@@ -312,6 +323,23 @@ def run(ck, prog, tier):
                                 'counterexample found: cannot conclude' % und)
         n_cases = max(n_cases, 1000)
         counts['steps'] = max(counts['steps'], 200)
+    # D6b: in exact arithmetic a segment needs at most 4 clipping steps (two per end point); the
+    # failsafe must therefore not fire after 1, 2 or 3 completed steps, else a half-clipped
+    # segment is returned as accepted.  The failsafe test does not depend on the geometry, so a
+    # sample of the step cases is enough.
+    sample = step_cases[::max(1, len(step_cases) // 24)][:24] if step_cases else []
+    for k in (1, 2, 3):
+        for rx, ry, d in sample:
+            case = ClipCase([(tx, rx), (ty, ry)], False, iter_init + k)
+            it.hooks = case
+            outs = list(it.exec_block(loop.body, st0))
+            ok = len(outs) == 1 and outs[0].kind in ('fall', 'continue')
+            ck.ob('C08-D6-bounded', 'failsafe-not-before-4-steps[k=%d] %s' % (k, d), ok,
+                  'after %d completed clipping step(s) a segment that still needs clipping is '
+                  'returned instead of clipped (%s): the failsafe fires before the 4 steps that '
+                  'exact Cohen-Sutherland clipping can need, so a partly clipped segment is '
+                  'accepted' % (k, [o.kind for o in outs]), fn.loc(loop),
+                  key='clip_segment::failsafe-too-early')
     n_steps = counts['steps']
     it.stack.pop()
     ck.floor('order-type pairs', n_cases, 1000)
